@@ -163,6 +163,9 @@ package parsley
 //@ -- the node returned by the Parser call a combinator made last (each combinator sets it right after its own call
 //@ -- and reads it before the next one, so nested combinators may reuse it)
 //@ ghost GhostLastNode Node
+//@ -- likewise: the curtailing set the last Parser call returned, and the union a combinator has accumulated so far
+//@ ghost GhostLastCp data.IntSet
+//@ ghost GhostCpAcc data.IntSet
 
 //@ -- GhostSpare(a): somebody holds the permission to append in place into the spare capacity of array a.
 //@ -- Created (true) by whoever allocates a list array, required by every in-place append, cleared by Memoize
@@ -297,7 +300,7 @@ package parsley
 //@   ensures  [PC6;C06] err != nil ==> err.Pos() <= GhostMaxFail
 //@   ensures  [mono] (old(GhostCurtailed) ==> GhostCurtailed) && GhostMaxFail >= old(GhostMaxFail) && GhostCalls > old(GhostCalls)
 //@   ensures  [floor;C02] GhostFloorPos == old(GhostFloorPos) && same(GhostFloorLrc, old(GhostFloorLrc))
-//@   assigns  ctx.err, ctx.callCount, maps[ResultCache](), maps[map[Pos]*Result](), maps[map[string]*regexp.Regexp](), GhostCurtailed, GhostMaxFail, GhostCalls, GhostFloorPos, GhostFloorLrc, GhostLo, GhostHi, GhostSeqMark, GhostSpare, GhostLastNode
+//@   assigns  ctx.err, ctx.callCount, maps[ResultCache](), maps[map[Pos]*Result](), maps[map[string]*regexp.Regexp](), GhostCurtailed, GhostMaxFail, GhostCalls, GhostFloorPos, GhostFloorLrc, GhostLo, GhostHi, GhostSeqMark, GhostSpare, GhostLastNode, GhostLastCp, GhostCpAcc
 //@   ensures  [window] GhostLo == old(GhostLo) && GhostHi == old(GhostHi) && GhostSeqMark == old(GhostSeqMark)
 //@   ghost_entry GhostLo = pos
 //@   ghost_entry GhostHi = Eof(ctx.reader, pos)
